@@ -60,9 +60,21 @@ Definition normalizeQualifier (s : bytes) : bytes :=
   else if beq lower $"ga" || beq lower $"final" || beq lower $"release" then []
   else lower.
 
+(* new(big.Int).SetString(s, 10): optional sign, at least one digit, any length *)
+Definition big_of (s : bytes) : option Z :=
+  match s with
+  | [] => None
+  | c :: r =>
+      if ceqb c "-"%char then
+        if nonempty_digits r then Some (- Z.of_N (digits_val r))%Z else None
+      else
+        let d := if ceqb c "+"%char then r else s in
+        if nonempty_digits d then Some (Z.of_N (digits_val d)) else None
+  end.
+
 Definition elem_of (part : bytes) : elem :=
   let n := normalizeQualifier part in
-  match atoi n with
+  match big_of n with
   | Some z => Num z
   | None => Str n
   end.
